@@ -27,7 +27,10 @@ theorem armed_first_call_fails (e : Enf) (op : MOp) (a : AdapterSt) (ha : e.adap
       | .add _ _ r => (e.getStore sec pt).map (fun s => s.has r) = some false
       | .addMany _ _ ex rs => ex = true ∨ (e.getStore sec pt).map (fun s => rs.any s.has) = some false
       | .removeMany _ _ rs => (e.getStore sec pt).map (fun s => rs.any s.has) = some true
-      | .updateMany _ _ os ns => os.length = ns.length
+      -- after the repair of D12/D18 an update asks `updatable` before it touches the adapter
+      | .update _ _ o n => (e.getStore sec pt).map (fun s => Enf.updatable s [o] [n]) = some true
+      | .updateMany _ _ os ns => os.length = ns.length ∧
+          (e.getStore sec pt).map (fun s => Enf.updatable s os ns) = some true
       | .removeFiltered _ _ _ vals => vals ≠ []
       | _ => True) :
     ∃ e', e.applyM op = some (e', .err false) ∧ e'.memory = e.memory := by
